@@ -10,7 +10,7 @@ identity of a process is (pid, incarnation uid) kept by simk.
 from vf.harness import use_world, outcome, freeze
 from vf.simk.world import World, CLK_TCK
 
-ACTIONS = ["kill", "nice5", "rlimit", "aff0", "ionice", "terminate", "suspend", "resume",
+ACTIONS = ["kill", "nice5", "rlimit", "aff0", "ionice", "sig0", "terminate", "suspend", "resume",
            "sig64", "affall"]
 
 
@@ -25,6 +25,8 @@ def do_action(psutil, o, a):
         return o.resume()
     if a == "sig64":
         return o.send_signal(64)
+    if a == "sig0":
+        return o.send_signal(0)
     if a == "nice5":
         return o.nice(5)
     if a == "ionice":
@@ -39,7 +41,7 @@ def do_action(psutil, o, a):
 
 
 EXPECT = {"kill": ("kill", (9,)), "terminate": ("kill", (15,)), "suspend": ("kill", (19,)),
-          "resume": ("kill", (18,)), "sig64": ("kill", (64,)), "nice5": ("setpriority", (5,)),
+          "resume": ("kill", (18,)), "sig64": ("kill", (64,)), "sig0": ("kill", (0,)), "nice5": ("setpriority", (5,)),
           "ionice": ("ioprio_set", (2, 3)), "rlimit": ("prlimit", (7, (7, 9))),
           "aff0": ("affinity_set", ((0,),)), "affall": ("affinity_set", ((0, 1),))}
 
@@ -52,9 +54,25 @@ def _norm(x):
     return x
 
 
+class _StubSubproc:
+    """what psutil.Popen wraps; the child was started by us and nobody waited for it through this object"""
+    def __init__(self, pid):
+        self.pid = pid
+        self.returncode = None
+        self.stdin = self.stdout = self.stderr = None
+
+
+def mk_popen(ps, pid):
+    o = ps.Popen.__new__(ps.Popen)
+    object.__setattr__(o, "_Popen__subproc", _StubSubproc(pid))
+    o._init(pid, _ignore_nsp=False)
+    return o
+
+
 class Cfg:
     def __init__(self, seed=0, slots=("A", "B"), max_objs=2, actions=(), clock=False,
-                 queries=("name",), numeric=False, use_iter=True, use_exit=True, max_denies=0, oneshot=False):
+                 queries=("name",), numeric=False, use_iter=True, use_exit=True, max_denies=0, oneshot=False, popen=False,
+                 own_pid=None, iterhold=False, comm=None):
         self.seed = seed
         base = 1000 + (seed % 9) * 13
         self.pid = {"A": base, "B": base + 7, "C": base + 19}
@@ -66,6 +84,11 @@ class Cfg:
         self.numeric = numeric
         self.use_iter = use_iter
         self.use_exit = use_exit
+        self.popen = popen                # held objects are psutil.Popen instances (over a stub subprocess)
+        self.iterhold = iterhold          # event: run process_iter() and hold the object it yields for a slot
+        self.comm = comm or {}            # slot -> process name bytes
+        if own_pid:
+            self.pid["A"] = own_pid       # the pid of the interpreter that imported psutil
         self.oneshot = oneshot            # enter/exit of a oneshot() block on object 0
         self.max_denies = max_denies      # permission faults: /proc/<pid>/stat of ONE incarnation becomes unreadable
         self.btime0 = 1700000000 + (seed % 5) * 3600
@@ -124,6 +147,10 @@ class Exec:
             ev.append(["os_exit", 0] if 0 in self.cms else ["os_enter", 0])
         if c.use_iter:
             ev.append(["iter"])
+        if c.iterhold and len(self.objs) < c.max_objs:
+            for s in c.slots:
+                if c.pid[s] in w.procs:
+                    ev.append(["iterhold", s])
         if c.clock:
             ev += [["boot_time"], ["step-"], ["tick100"], ["step+"]]
             for i in range(len(self.objs)):
@@ -151,7 +178,7 @@ class Exec:
         lab = k
         if k == "spawn":
             w.tick(1)      # a recycled pid's new owner starts at a later jiffy
-            w.spawn(c.pid[ev[1]], ppid=1, comm=b"p" + ev[1].encode())
+            w.spawn(c.pid[ev[1]], ppid=1, comm=c.comm.get(ev[1], b"p" + ev[1].encode()))
         elif k == "exit":
             w.exit(c.pid[ev[1]])
         elif k == "reap":
@@ -180,7 +207,7 @@ class Exec:
         elif k == "new":
             pid = c.pid[ev[1]]
             owner = w.owner_uid(pid)
-            out = outcome(ps.Process, pid)
+            out = outcome(mk_popen if c.popen else ps.Process, *((ps, pid) if c.popen else (pid,)))
             if out[0] == "ok":
                 if owner is None:
                     self.viol("ctor-on-absent-pid", "Process(%d) succeeded for an unlisted pid" % pid)
@@ -217,9 +244,31 @@ class Exec:
         elif k == "iter":
             out = outcome(lambda: [p.pid for p in ps.process_iter()])
             lab = "iter:%s" % (out[0] if out[0] == "ok" else out[1])
+            for pid_, o_ in ps._pmap.items():
+                if not hasattr(o_, "_vf_uid"):
+                    o_._vf_uid = w.owner_uid(pid_)       # created during this (atomic) call
             if out[0] != "ok":
                 self.viol("iter-raised:%s" % out[1], "process_iter() raised %r" % (out,))
             # completeness / order of the listing is C04's business, not checked here
+        elif k == "iterhold":
+            pid = c.pid[ev[1]]
+            out = outcome(lambda: [p for p in ps.process_iter() if p.pid == pid])
+            lab = "iterhold:%s" % (out[0] if out[0] == "ok" else out[1])
+            for pid_, o_ in ps._pmap.items():
+                if not hasattr(o_, "_vf_uid"):
+                    o_._vf_uid = w.owner_uid(pid_)
+            if out[0] != "ok":
+                self.viol("iter-raised:%s" % out[1], repr(out))
+            elif out[1]:
+                o = out[1][0]
+                # which incarnation does a cached object stand for?  the one current when it was first yielded
+                if not hasattr(o, "_vf_uid"):
+                    o._vf_uid = w.owner_uid(pid)
+                if not any(o is x for x in self.objs):
+                    self.objs.append(o)
+                    self.ouid.append(o._vf_uid)
+                    self.hashes.append(None)
+                    self.ran_false.append(False)
         elif k == "boot_time":
             out = outcome(ps.boot_time)
             if out != ("ok", float(w.btime)):
@@ -319,6 +368,9 @@ class Exec:
         def od(o, uid):
             d = {"pid": o.pid, "uid": rel.get(uid), "gone": o._gone, "reused": o._pid_reused,
                  "name": o._name, "hash": o._hash is not None, "blk": hasattr(o, "_cache"),
+                 # what the open oneshot() block has remembered so far (any memoized method, whichever they are)
+                 "ocache": sorted((getattr(fn, "__name__", str(fn)), v if isinstance(v, (bool, int, str)) else None)
+                                  for fn, v in getattr(o, "_cache", {}).items()),
                  "pcache": sorted(fn.__name__ for fn in getattr(o._proc, "_cache", {})),
                  "pcache_cur": (lambda c_, p_: None if not c_ or p_ is None else
                                 any(isinstance(v, dict) and v.get("create_time") == str(p_.start).encode() for v in c_.values()))(
